@@ -13,7 +13,8 @@ from .. import objgen, valuecheck
 from ..compare import same
 from .c08 import zoo, walk_states
 
-REQUIRED = ["run_refs_members", "refs_eq_members", "flow_facts"]
+REQUIRED = ["run_refs_members", "refs_eq_members", "flow_facts", "skeleton_dump", "skeleton_dumps", "path_sink_gets_buffer",
+            "file_sink_gets_buffer", "dumps_returns_buffer", "sink_independent"]
 METHODS = [(zipfile.ZIP_STORED, None), (zipfile.ZIP_DEFLATED, None), (zipfile.ZIP_DEFLATED, 1), (zipfile.ZIP_DEFLATED, 9),
            (zipfile.ZIP_BZIP2, None), (zipfile.ZIP_BZIP2, 1), (zipfile.ZIP_LZMA, None),
            (zipfile.ZIP_DEFLATED, 0), (zipfile.ZIP_DEFLATED, -1), (zipfile.ZIP_BZIP2, 9), (zipfile.ZIP_STORED, 5), (zipfile.ZIP_LZMA, 3)]
@@ -31,6 +32,11 @@ def wellformed(data):
         names = z.namelist()
         if z.testzip() is not None:
             fails.append("zip-corrupt: testzip() reports a bad member")
+        infos_ = z.infolist()
+        end = data.rfind(b"PK\x05\x06")
+        if (infos_ and min(i.header_offset for i in infos_) != 0) or (end >= 0 and end + 22 + len(z.comment) != len(data)):
+            fails.append(f"zip-extra-bytes: the {len(data)} bytes hold more than one zip archive's worth (first member at offset "
+                         f"{min(i.header_offset for i in infos_) if infos_ else 0}, end record at {end}): not the archive dumps() returns")
         if names.count("schema.json") != 1:
             fails.append(f"schema-missing: members are {names[:5]}")
             return fails
@@ -82,6 +88,85 @@ def normalised_members(data):
     schema, members, _ = valuecheck.archive_parts(data)
     _, files = valuecheck.normalise_schema(schema)
     return {f"{files[m]}.{m.rsplit('.', 1)[-1]}" if m in files else m: member_digest(m, c) for m, c in members.items()}
+
+
+T2_SINKS = ["new-str", "new-path", "existing-str", "existing-path", "new-fileobj", "existing-fileobj", "existing-fileobj-middle", "bytesio", "dumps"]
+
+
+def sink_correspondence(ctx, objs):
+    """T2 for the sink theorems: the real dump/dumps in a forked, traced child against the regenerated skeletons run by the
+    model on the same file-system state: operation trace, which paths changed, what an open file object received"""
+    from .. import fscheck
+    from . import c18
+
+    mism, runs = [], 0
+    picks, seen = [], 0
+    from skops.io import dumps
+
+    for name, obj in objs:
+        try:
+            n = len(dumps(obj))
+        except Exception:
+            continue
+        seen += 1
+        if seen in (1, 3) or name in ("scalar-states", "gen0", "gen7") or (ctx.thorough and seen % 9 == 0):
+            picks.append((name, obj, n))
+    for name, obj, n in picks:
+        for sink in T2_SINKS:
+            sb = fscheck.Sandbox()
+            try:
+                code, res, before, after, target = c18.attempt(sb, obj, sink)
+                runs += 1
+                rep = dict(kind="sink-trace", object=name, repr=repr(obj)[:400], sink=sink)
+                if res is None or "child_error" in res:
+                    mism.append(dict(what=f"child failed: {(res or {}).get('child_error', '')[-300:]}", **rep))
+                    continue
+                tkey = tuple(sb.rel(str(target)))
+                meta = tuple(sb.rel(str(sb.root / "fileobj.json")))
+                is_path = sink.endswith(("-str", "-path"))
+                data = after["files"].get(tkey) if is_path else None
+                chunks = [list(data)] if data is not None else [[7] * 5]
+                prog = "dumps" if sink == "dumps" else "dump"
+                m = ctx.driver.run([dict(op="fs.run", prog=prog, cwd=["w"], input=dict(abs=False, parts=[]),
+                                         output=dict(abs=False, parts=[target.name]) if sink.endswith("-str") else
+                                         dict(abs=True, parts=sb.rel(str(target))), dumpable=True, sinkIsPath=is_path, chunks=chunks,
+                                         fresh="x", sysTmp=sb.rel(str(sb.systmp)), dirs=[list(d) for d in before["dirs"]],
+                                         files=[[list(p_), list(c)] for p_, c in before["files"].items()])])[0]
+                ok_model = m["sig"] in ("next", "ret")
+                if (res["outcome"][0] == "ok") != ok_model:
+                    mism.append(dict(what=f"outcome differs from the model's: {res['outcome']} vs {m['sig']}", **rep))
+                    continue
+                events = [e for e in fscheck.norm_events(res["events"]) if len(e) < 2 or tuple(e[1]) not in (meta,)]
+                if "fileobj" in sink:
+                    events = [e for e in events if len(e) < 2 or tuple(e[1]) != tkey]      # the harness's own open()
+                mt = fscheck.model_trace(m["trace"])
+                if events != mt:
+                    mism.append(dict(what=f"file operations of dump to {sink} differ from the regenerated skeleton's", impl=events[:6], model=mt[:6], **rep))
+                mfiles = {tuple(p_): bytes(c) for p_, c in m["fs"]["files"]}
+                rfiles = {k: v for k, v in after["files"].items() if k != meta}
+                if "fileobj" in sink:
+                    mfiles.pop(tkey, None)
+                    rfiles.pop(tkey, None)
+                if mfiles != rfiles:
+                    diff = sorted(k for k in set(mfiles) | set(rfiles) if mfiles.get(k) != rfiles.get(k))
+                    mism.append(dict(what=f"files after dump to {sink} differ from the model's at {diff[:3]}", **rep))
+                if sorted(map(list, after["dirs"])) != sorted(m["fs"]["dirs"]):
+                    mism.append(dict(what=f"directories after dump to {sink} differ from the model's", **rep))
+                if "fileobj" in sink or sink == "bytesio":
+                    # model: the handle receives the buffer once, at its position; nothing else
+                    import json as _json
+
+                    info = _json.loads(after["files"][meta])
+                    got = info["after"] - info["pos"]
+                    if got != n:
+                        mism.append(dict(what=f"the file object moved by {got} bytes, dumps() of the same object has {n} (model: the buffer, once)", **rep))
+                    if len(m["handle"]) != 1:
+                        mism.append(dict(what=f"model handle received {len(m['handle'])} buffers", **rep))
+                if sink == "dumps" and (m["returned"] is None or m["trace"]):
+                    mism.append(dict(what="model dumps returns nothing or touches files", **rep))
+            finally:
+                sb.cleanup()
+    return mism, runs
 
 
 def run(ctx):
@@ -202,13 +287,15 @@ def run(ctx):
         for f in Path(d).iterdir():
             f.unlink()
         os.rmdir(d)
+    mism, t2_runs = sink_correspondence(ctx, objs)
     from ..iocheck import conclude
 
-    conclude(ctx, lean_ok, [], ofails, "archive/C12")
+    conclude(ctx, lean_ok, mism, ofails, "archive/C12")
     ctx.coverage.update(
         evaluations=evaluations, distinct_nontrivial=len(distinct),
         rule="zoo objects (all 7 compression settings x 7 sinks) and generated supported values (one random setting x 7 sinks; every 7th all settings): "
              "zip validity, schema fields, refs<->members, flat names, normalised schema and member-content equality across sinks and compression settings, loaded-object equality",
+        sink_trace_runs=t2_runs, correspondence_mismatches=len(mism),
         samples=samples, sinks=["dumps", "str", "Path", "file object wb/ab/w+b", "BytesIO"], methods=[f"{m}/{l}" for m, l in METHODS], wall=round(time.time() - t0, 1))
     ctx.assumptions += ["zipfile's codec round trip (unzip(zip(c, members)) = members) is a library contract"]
 
